@@ -24,6 +24,10 @@ func main() {
 	)
 	flag.Parse()
 	start := time.Now()
+	// go/packages shells out to `go`; /repo/go.mod needs go >= 1.26.4, the default go is older.
+	if _, err := os.Stat("/opt/veriftools/go1.26.8/bin/go"); err == nil {
+		os.Setenv("PATH", "/opt/veriftools/go1.26.8/bin:"+os.Getenv("PATH"))
+	}
 
 	P, err := Load(*repo, *goos, *goarch)
 	if err != nil {
